@@ -7,6 +7,15 @@ Floats are the 16 hex digits of their IEEE bits, ints decimal.
   ke <nv> rownnz*nv rowadr*nv <nM> colind*nM M*nM v*nv
       -> e <hex> | mv <hex>*nv | dense <hex>*(nv*nv)
       -> bad-op   for malformed input, including storage that is not lower-triangular with the diagonal last
+
+Potential energy and spring forces (mirrors the `ep` line printed by the `epline` op of the harness):
+
+  ep <nv> <gravityOn> g0 g1 g2 <nb> {mass x0 x1 x2}*nb <springOn> <nj> {joint}*nj <nt> {tendon}*nt
+      joint  = s <dadr> k p0 p1 q qspring | b <dadr> k p0 p1 re r d0 d1 d2 | f <dadr> k p0 p1 re r d0 d1 d2 re' r' d0' d1' d2'
+               (re = displacement norm as mj_energyPos computes it, r / d = as mj_springdamper computes them)
+      tendon = k p0 p1 length lower upper <nJ> {dof J}*nJ
+      -> e0 <hex> | qs <hex>*nv
+      -> bad-op   for malformed input, a dof range outside [0, nv), or trailing tokens
 -/
 open MjProof MjProof.Driver MjProof.Energy
 
@@ -29,8 +38,68 @@ def mkRow (nv : Nat) (rownnz rowadr colind : Array Nat) (M : Array Float) (i : F
   if cd ≠ i.val then none
   some ⟨offs, xd⟩
 
+/-! token parser for the `ep` op -/
+abbrev P := StateT (List String) Option
+
+def tok : P String := fun
+  | [] => none
+  | t :: ts => some (t, ts)
+def pNat : P Nat := do let t ← tok; if t.length > 9 then failure else liftM (m := Option) t.toNat?
+def pFlt : P Float := do let t ← tok; liftM (m := Option) (fl? t)
+def pBool : P Bool := do let t ← tok; if t == "1" then pure true else if t == "0" then pure false else failure
+def rep {β : Type} (p : P β) : Nat → P (List β)
+  | 0 => pure []
+  | n + 1 => do let a ← p; let r ← rep p n; pure (a :: r)
+
+def pRadial : P (Disp Float) := do
+  let re ← pFlt; let r ← pFlt; let d0 ← pFlt; let d1 ← pFlt; let d2 ← pFlt
+  pure (.radial re r d0 d1 d2)
+
+def pJoint (nv : Nat) : P (JointSpring Float) := do
+  let kind ← tok
+  let dadr ← pNat
+  let k ← pFlt; let p0 ← pFlt; let p1 ← pFlt
+  if kind == "s" then
+    let q ← pFlt; let qs ← pFlt
+    if dadr + 1 ≤ nv then pure ⟨k, p0, p1, dadr, [.scalar q qs]⟩ else failure
+  else if kind == "b" then
+    let d ← pRadial
+    if dadr + 3 ≤ nv then pure ⟨k, p0, p1, dadr, [d]⟩ else failure
+  else if kind == "f" then
+    let d ← pRadial; let d' ← pRadial
+    if dadr + 6 ≤ nv then pure ⟨k, p0, p1, dadr, [d, d']⟩ else failure
+  else failure
+
+def pTendon (nv : Nat) : P (TendonSpring Float) := do
+  let k ← pFlt; let p0 ← pFlt; let p1 ← pFlt
+  let len ← pFlt; let lo ← pFlt; let hi ← pFlt
+  let nJ ← pNat
+  let J ← rep (do let c ← pNat; let x ← pFlt; if c < nv then pure (c, x) else failure) nJ
+  pure ⟨k, p0, p1, len, lo, hi, J⟩
+
+def pEp : P (Nat × PotIn Float) := do
+  let nv ← pNat
+  let gOn ← pBool
+  let g0 ← pFlt; let g1 ← pFlt; let g2 ← pFlt
+  let nb ← pNat
+  let bodies ← rep (do let m ← pFlt; let x0 ← pFlt; let x1 ← pFlt; let x2 ← pFlt; pure (⟨m, x0, x1, x2⟩ : Body Float)) nb
+  let sOn ← pBool
+  let nj ← pNat
+  let joints ← rep (pJoint nv) nj
+  let nt ← pNat
+  let tendons ← rep (pTendon nv) nt
+  let rest ← get
+  if rest.isEmpty then pure (nv, ⟨gOn, g0, g1, g2, bodies, sOn, joints, tendons⟩) else failure
+
+def stepEp (ts : List String) : String :=
+  match pEp.run ts with
+  | none => "bad-op"
+  | some ((nv, s), _) =>
+    "e0 " ++ floatBits (energyPos s) ++ " | qs" ++ (if nv = 0 then "" else " " ++ showFs (springForce s nv))
+
 def step (line : String) : String :=
   match words line with
+  | "ep" :: rest => stepEp rest
   | "ke" :: nvs :: rest =>
     match nvs.toNat? with
     | none => "bad-op"
